@@ -9,13 +9,13 @@ TRUST = "TLC 1.8 and the CommunityModules Json reader; the harness projection/wr
 
 CHECKS = {
     "C07": dict(cat="model_checking", ref="DESIGN 8/C07",
-                text="PySem.tla gives the supported subset a reference semantics over abstract values with an external oracle. TLC enumerates every oracle script of every generated program up to a depth bound (9 quick / 12 thorough); every complete script is executed in CPython (instrumented values) on the original function and on exec(unparse(SCFG2AST(restructured AST2SCFG(f)))); TLC replays every recorded execution through the semantics and compares the sequence of value-creating events and the outcome. Pipeline outcomes are judged too (explicit refusal allowed, internal error or non-compiling output is a violation). Bounded in script depth; data values abstract.",
+                text="PySem.tla gives the supported subset a reference semantics over abstract values with an external oracle. TLC enumerates every oracle script of every generated program up to a depth bound (9 quick / 12 thorough); every complete script is executed in CPython (instrumented values) on the original function and on exec(unparse(SCFG2AST(restructured AST2SCFG(f)))); TLC replays every recorded execution through the semantics and compares the sequence of value-creating events and the outcome. Pipeline outcomes are judged too (explicit refusal allowed, internal error or non-compiling output is a violation). In addition (a) every accepted program's flat graph and generated code are abstracted to their control skeleton (opaque statement / test identities) and TLC explores their PRODUCT under all test outcomes to fix-point (Skeleton.tla): all decision paths of unbounded length. Real executions are bounded in script depth; data values abstract.",
                 technique="TLC enumeration of behaviours of an executable TLA+ reference semantics (PySem.tla), replayed into the implementation, plus trace validation of the recorded executions"),
     "C08": dict(cat="model_checking", ref="DESIGN 8/C08",
                 text="Same reference semantics and scripts as C07; the third execution is a block-by-block interpreter over AST2SCFG's graph exactly as the property defines it (run the block's statements, two successors: evaluate the last expression, first successor if true; stop at a return); TLC compares events and outcome with PySem. Every operand is an oracle event, so side-effecting and raising operands are the default. In addition AstImpl.tla transcribes the front end itself: TLC checks conformance of the transcription with the real graphs and, for every program and script, that the lowered graph means what the reference semantics says (design level).",
                 technique="TLC enumeration of behaviours of PySem.tla replayed into a block-wise interpretation of the implementation's graph, plus trace validation"),
     "C10": dict(cat="model_checking", ref="DESIGN 8/C10",
-                text="For every generated program accepted by the pipeline the output tree of SCFG2AST is taken apart by node identity (statements of every original block, return values, if-tests, control-variable assignments) and TLC (Census.tla) checks the bag equalities: every statement exactly once, every branching test exactly once as an if condition, emitted control assignments = those of the synthetic assignment blocks, no foreign statement; compile() and the set of introduced names are recorded (the reserved-namespace classification is done by the harness).",
+                text="For every generated program accepted by the pipeline the output tree of SCFG2AST is taken apart by node identity (statements of every original block, return values, if-tests, control-variable assignments) and TLC (Census.tla) checks the bag equalities: every statement exactly once, every branching test exactly once as an if condition, emitted control assignments = those of the synthetic assignment blocks, no foreign statement; compile() and the set of introduced names are recorded (the reserved-namespace classification is done by the harness). The all-paths product of Skeleton.tla (flat graph x generated code x control-variable valuation, explored to fix-point) covers what a dropped or duplicated statement does on paths no input exercises.",
                 technique="TLA+ bag predicates (Census.tla) evaluated by TLC on a static census of the implementation's output"),
     "C11": dict(cat="model_checking", ref="DESIGN 8/C11",
                 text="Every ast.stmt subclass of the running interpreter outside the supported set (nested def included) is placed at every structural position template, plus non-function inputs and supported control programs; the real AST2SCFG is run on each and TLC (Unsupported.tla) checks outcome = refused / graph and certifies that the recorded cases are exactly the product kinds x positions. A small finite model, stated as such.",
